@@ -88,7 +88,7 @@ var vLogs = vSigOps[plog.Logs, consumer.Logs]{
 		ld := plog.NewLogs()
 		for k, v := range c0 {
 			e := ld.ResourceLogs().AppendEmpty()
-			testdata.GenerateLogs(1 + k%3).ResourceLogs().At(0).CopyTo(e)
+			vShapeLogs(e, k, int(v/10))
 			e.Resource().Attributes().PutInt(vMarker, v)
 		}
 		return ld
@@ -153,7 +153,7 @@ var vMetrics = vSigOps[pmetric.Metrics, consumer.Metrics]{
 		md := pmetric.NewMetrics()
 		for k, v := range c0 {
 			e := md.ResourceMetrics().AppendEmpty()
-			testdata.GenerateMetrics(1 + k%7).ResourceMetrics().At(0).CopyTo(e)
+			vShapeMetrics(e, k, int(v/10))
 			e.Resource().Attributes().PutInt(vMarker, v)
 		}
 		return md
@@ -218,7 +218,7 @@ var vTraces = vSigOps[ptrace.Traces, consumer.Traces]{
 		td := ptrace.NewTraces()
 		for k, v := range c0 {
 			e := td.ResourceSpans().AppendEmpty()
-			testdata.GenerateTraces(1 + k%3).ResourceSpans().At(0).CopyTo(e)
+			vShapeTraces(e, k, int(v/10))
 			e.Resource().Attributes().PutInt(vMarker, v)
 		}
 		return td
@@ -286,7 +286,7 @@ var vProfiles = vSigOps[pprofile.Profiles, xconsumer.Profiles]{
 		pd := pprofile.NewProfiles()
 		for k, v := range c0 {
 			e := pd.ResourceProfiles().AppendEmpty()
-			testdata.GenerateProfiles(1 + k%3).ResourceProfiles().At(0).CopyTo(e)
+			vShapeProfiles(e, k, int(v/10))
 			e.Resource().Attributes().PutInt(vMarker, v)
 		}
 		return pd
@@ -424,6 +424,147 @@ func vErrID(e error) uint64 {
 		return ve.id
 	}
 	return 999999
+}
+
+// ---- payload shapes ----------------------------------------------------------------------------------
+// The marker v of an initial entry encodes its shape: shape = v / 10 (so a case replays from its term alone).
+//   0 a full testdata entry (items present)             1 a resource only: attributes + schema URL, no scope
+//   2 a resource with one named scope and NO items      3 two scopes, one empty, one holding item(s) that are
+//   4 a full entry plus an empty scope + schema URLs      entirely default / carry no data (metrics: descriptors
+//   5 (metrics) histogram / exponential histogram /       of an empty gauge, an empty monotonic sum and a metric
+//     summary without points and a gauge point without    with no type: zero data points)
+//     value; (others) an item with only attributes
+// A payload made of shapes 1-3 only has resources, scopes (and metric descriptors) but a zero item count.
+const vNShapes = 6
+
+func vShapeLogs(e plog.ResourceLogs, k, shape int) {
+	switch shape {
+	case 0, 4:
+		testdata.GenerateLogs(1 + k%3).ResourceLogs().At(0).CopyTo(e)
+		if shape == 4 {
+			e.SetSchemaUrl("https://example.test/res/1.2.3")
+			e.ScopeLogs().AppendEmpty().SetSchemaUrl("https://example.test/scope")
+		}
+	case 1:
+		e.Resource().Attributes().PutStr("service.name", "idle")
+		e.Resource().SetDroppedAttributesCount(3)
+		e.SetSchemaUrl("https://example.test/res/1.2.3")
+	case 2:
+		e.Resource().Attributes().PutStr("service.name", "idle")
+		sc := e.ScopeLogs().AppendEmpty()
+		sc.Scope().SetName("scope-without-records")
+		sc.Scope().SetVersion("v9")
+		sc.Scope().Attributes().PutBool("empty", true)
+	case 3:
+		e.ScopeLogs().AppendEmpty()
+		e.ScopeLogs().AppendEmpty().LogRecords().AppendEmpty()
+	default:
+		lr := e.ScopeLogs().AppendEmpty().LogRecords().AppendEmpty()
+		lr.Attributes().PutStr("only", "attributes")
+	}
+}
+
+func vShapeMetrics(e pmetric.ResourceMetrics, k, shape int) {
+	switch shape {
+	case 0, 4:
+		testdata.GenerateMetrics(1 + k%7).ResourceMetrics().At(0).CopyTo(e)
+		if shape == 4 {
+			e.SetSchemaUrl("https://example.test/res/1.2.3")
+			e.ScopeMetrics().AppendEmpty().SetSchemaUrl("https://example.test/scope")
+		}
+	case 1:
+		e.Resource().Attributes().PutStr("service.name", "idle")
+		e.Resource().SetDroppedAttributesCount(3)
+		e.SetSchemaUrl("https://example.test/res/1.2.3")
+	case 2:
+		e.Resource().Attributes().PutStr("service.name", "idle")
+		sc := e.ScopeMetrics().AppendEmpty()
+		sc.Scope().SetName("scope-without-metrics")
+		sc.Scope().SetVersion("v9")
+		sc.Scope().Attributes().PutBool("empty", true)
+	case 3:
+		e.Resource().Attributes().PutStr("service.name", "declared-but-idle")
+		e.ScopeMetrics().AppendEmpty()
+		ms := e.ScopeMetrics().AppendEmpty().Metrics()
+		g := ms.AppendEmpty()
+		g.SetName("queue.length")
+		g.SetUnit("1")
+		g.SetDescription("no points yet")
+		g.Metadata().PutStr("origin", "verif")
+		g.SetEmptyGauge()
+		sm := ms.AppendEmpty()
+		sm.SetName("requests")
+		sm.SetEmptySum().SetIsMonotonic(true)
+		sm.Sum().SetAggregationTemporality(pmetric.AggregationTemporalityCumulative)
+		ms.AppendEmpty().SetName("no-type-set")
+	default:
+		ms := e.ScopeMetrics().AppendEmpty().Metrics()
+		h := ms.AppendEmpty()
+		h.SetName("latency")
+		h.SetEmptyHistogram().SetAggregationTemporality(pmetric.AggregationTemporalityDelta)
+		eh := ms.AppendEmpty()
+		eh.SetName("latency.exp")
+		eh.SetEmptyExponentialHistogram()
+		ms.AppendEmpty().SetEmptySummary()
+		ms.AppendEmpty().SetEmptyGauge().DataPoints().AppendEmpty().Attributes().PutStr("no", "value")
+	}
+}
+
+func vShapeTraces(e ptrace.ResourceSpans, k, shape int) {
+	switch shape {
+	case 0, 4:
+		testdata.GenerateTraces(1 + k%3).ResourceSpans().At(0).CopyTo(e)
+		if shape == 4 {
+			e.SetSchemaUrl("https://example.test/res/1.2.3")
+			e.ScopeSpans().AppendEmpty().SetSchemaUrl("https://example.test/scope")
+		}
+	case 1:
+		e.Resource().Attributes().PutStr("service.name", "idle")
+		e.Resource().SetDroppedAttributesCount(3)
+		e.SetSchemaUrl("https://example.test/res/1.2.3")
+	case 2:
+		e.Resource().Attributes().PutStr("service.name", "idle")
+		sc := e.ScopeSpans().AppendEmpty()
+		sc.Scope().SetName("scope-without-spans")
+		sc.Scope().SetVersion("v9")
+		sc.Scope().Attributes().PutBool("empty", true)
+	case 3:
+		e.ScopeSpans().AppendEmpty()
+		e.ScopeSpans().AppendEmpty().Spans().AppendEmpty()
+	default:
+		sp := e.ScopeSpans().AppendEmpty().Spans().AppendEmpty()
+		sp.Attributes().PutStr("only", "attributes")
+		sp.Events().AppendEmpty()
+		sp.Links().AppendEmpty()
+	}
+}
+
+func vShapeProfiles(e pprofile.ResourceProfiles, k, shape int) {
+	switch shape {
+	case 0, 4:
+		testdata.GenerateProfiles(1 + k%3).ResourceProfiles().At(0).CopyTo(e)
+		if shape == 4 {
+			e.SetSchemaUrl("https://example.test/res/1.2.3")
+			e.ScopeProfiles().AppendEmpty().SetSchemaUrl("https://example.test/scope")
+		}
+	case 1:
+		e.Resource().Attributes().PutStr("service.name", "idle")
+		e.Resource().SetDroppedAttributesCount(3)
+		e.SetSchemaUrl("https://example.test/res/1.2.3")
+	case 2:
+		e.Resource().Attributes().PutStr("service.name", "idle")
+		sc := e.ScopeProfiles().AppendEmpty()
+		sc.Scope().SetName("scope-without-profiles")
+		sc.Scope().SetVersion("v9")
+		sc.Scope().Attributes().PutBool("empty", true)
+	case 3:
+		e.ScopeProfiles().AppendEmpty()
+		e.ScopeProfiles().AppendEmpty().Profiles().AppendEmpty() // a profile without samples
+	default:
+		p := e.ScopeProfiles().AppendEmpty().Profiles().AppendEmpty()
+		p.SetDroppedAttributesCount(7)
+		p.Sample().AppendEmpty()
+	}
 }
 
 func vMark(v interface{ Int() int64 }, ok bool) int64 {
@@ -796,6 +937,24 @@ func vRunFan[T comparable, C any](ops vSigOps[T, C], out *vOut, cs vFanCase) {
 			out.Stat("ctx_ends_with_consumers_still_to_call", 1)
 		}
 	}
+	// payload shape histogram
+	degenerate := len(cs.c0) > 0
+	for _, v := range cs.c0 {
+		sh := int(v / 10)
+		out.Stat(fmt.Sprintf("payload_entry_shape_%d", sh), 1)
+		degenerate = degenerate && sh >= 1 && sh <= 3
+	}
+	switch {
+	case len(cs.c0) == 0:
+		out.Stat("payload_wholly_empty", 1)
+	case degenerate:
+		out.Stat("payload_structure_without_items", 1)
+		if len(cells) > 1 {
+			out.Stat("payload_structure_without_items_cloned", 1)
+		}
+	default:
+		out.Stat("payload_with_items", 1)
+	}
 	out.Stat(fmt.Sprintf("ctx_kind_%d", cs.ctxKind), 1)
 	out.Stat(fmt.Sprintf("consumers_%02d", n), 1)
 	out.Stat("cases_"+ops.name, 1)
@@ -806,7 +965,17 @@ func vGenCase(rng *vRand, caps []bool, roIn bool) vFanCase {
 	n := len(caps)
 	cs := vFanCase{caps: caps, roIn: roIn}
 	for k, ln := 0, rng.Intn(4); k < ln; k++ {
-		cs.c0 = append(cs.c0, int64(rng.Intn(4)))
+		cs.c0 = append(cs.c0, int64(rng.Intn(4))) // shape added below
+	}
+	// payload shape: 35% of the payloads have resources / scopes / descriptors but NO items at all (shapes 1-3),
+	// the others mix all shapes; (the wholly empty payload is len(c0) == 0)
+	noItems := rng.Intn(100) < 35
+	for k := range cs.c0 {
+		shape := rng.Intn(vNShapes)
+		if noItems {
+			shape = 1 + rng.Intn(3)
+		}
+		cs.c0[k] += int64(10 * shape)
 	}
 	cs.errs = make([][]uint64, n)
 	for i := range cs.errs {
@@ -880,6 +1049,9 @@ func vGenCase(rng *vRand, caps []bool, roIn bool) vFanCase {
 			w = vWr{kind: 2, k: rng.Intn(cur + 2), v: int64(4 + rng.Intn(5))}
 		default:
 			w = vWr{kind: 3, v: int64(rng.Intn(6))}
+			if len(cs.c0) > 0 && rng.Intn(2) == 0 {
+				w.v = cs.c0[rng.Intn(len(cs.c0))]
+			}
 		}
 		return vLab{who: who, w: w, async: rng.Intn(3) == 0}
 	}
